@@ -41,12 +41,73 @@ class C18(CtxCheck):
         return out
 
     def _units0(self, tier: str, seed: int) -> list:
-        return super().units(tier, seed) + [{"reuse": True}]
+        return super().units(tier, seed) + [{"reuse": True}] + [{"stalled": q, "order": o} for q in (1, 2) for o in ("stalled-first", "stalled-last")]
 
     def _work0(self, unit: dict, tier: str) -> dict:
         if unit.get("reuse"):
             return self.reuse_unit()
+        if "stalled" in unit:
+            return self.stalled_unit(unit)
         return super().work(unit, tier)
+
+    def stalled_unit(self, unit: dict) -> dict:
+        """Two listeners on one context; one of them does not drain its (small) queue during a burst of publications.  Every
+        successful publication must still be announced exactly once to the other listener."""
+        from typing import Any
+
+        import anyio
+
+        from ..explore import Chooser, new_summary, reset_determinism, run_main_asyncio
+        from ..vloop import Env
+
+        env = Env(Chooser([]), 0)
+        reset_determinism(0)
+        got: list = []
+
+        async def main() -> None:
+            import warnings
+
+            from asphalt.core import Context
+
+            async with Context() as ctx:
+                async def good(started: anyio.Event) -> None:
+                    async with ctx.resource_added.stream_events() as stream:
+                        started.set()
+                        async for ev in stream:
+                            got.append((ev.resource_name, ev.is_factory))
+
+                async def stalled(started: anyio.Event) -> None:
+                    async with ctx.resource_added.stream_events(max_queue_size=unit["stalled"]):
+                        started.set()
+                        await anyio.Event().wait()  # never reads
+
+                async with anyio.create_task_group() as tg:
+                    order = [stalled, good] if unit["order"] == "stalled-first" else [good, stalled]
+                    for fn in order:
+                        ev = anyio.Event()
+                        tg.start_soon(fn, ev)
+                        await ev.wait()
+                    with warnings.catch_warnings():
+                        warnings.simplefilter("ignore")
+                        ctx.add_resource(1, "a")
+                        ctx.add_resource(2.0, "b")
+                        ctx.add_resource_factory(lambda: "x", "c", types=str)
+                        ctx.get_resource_nowait(str, "c")
+                        ctx.add_resource(b"4", "d")
+                    for _ in range(20):
+                        await anyio.lowlevel.checkpoint()
+                    tg.cancel_scope.cancel()
+
+        run_main_asyncio(env, main)
+        s = new_summary()
+        s["evaluations"] = s["transitions"] = s["states"] = s["distinct"] = s["nontrivial"] = 1
+        s["outcomes"] = {"done": 1}
+        exp = [("a", False), ("b", False), ("c", True), ("c", False), ("d", False)]
+        if got != exp:
+            s["violations"].append({"keys": ["events"], "fails": [["events", f"with another listener stalled (queue size {unit['stalled']}), the listener received {got}, expected {exp}"]],
+                                    "program": dict(unit), "choices": [], "trace": [], "outcome": "done"})
+            s["keyhist"] = {"events": 1}
+        return s
 
     def reuse_unit(self) -> dict:
         """A subscriber outlives its owner; a new owner allocated at the same address publishes: the event must not reach the old
@@ -56,6 +117,13 @@ class C18(CtxCheck):
         return summary_for("context", "C18")
 
     def _replay0(self, rec: dict):  # type: ignore[no-untyped-def]
+        if "stalled" in rec.get("program", {}):
+            s = self.stalled_unit(rec["program"])
+            for v in s["violations"]:
+                for f in v["fails"]:
+                    print("FAIL", f[0], "-", f[1])
+            print(f"VIOLATION property=C18 replay={rec.get('_path', '')}" if s["violations"] else "no violation on this tree")
+            return 1 if s["violations"] else 0
         if rec.get("program", {}).get("reuse"):
             s = self.reuse_unit()
             for v in s["violations"]:
